@@ -5,7 +5,7 @@ Import ListNotations.
 Definition gen_cfg : howcfg :=
   mkHowCfg
     [("outer"%string, "full_outer"%string); ("full"%string, "full_outer"%string); ("fullouter"%string, "full_outer"%string); ("left"%string, "left_outer"%string); ("leftouter"%string, "left_outer"%string); ("right"%string, "right_outer"%string); ("rightouter"%string, "right_outer"%string); ("semi"%string, "left_semi"%string); ("leftsemi"%string, "left_semi"%string); ("anti"%string, "left_anti"%string); ("leftanti"%string, "left_anti"%string)]
-    "cross"%string "cross"%string "cross"%string "inner"%string
+    "inner"%string "cross"%string "cross"%string "inner"%string
     "_"%char " "%char
     ["left anti"%string; "left semi"%string]
-    "cross"%string "full outer"%string "right"%string.
+    "cross"%string "full outer"%string "right"%string true true.
